@@ -33,5 +33,9 @@ var (
 		"header extension payload must be 65535 32-bit words or less for non-RFC 5285 extensions",
 	)
 
+	errHeaderExtensionBlockSize = errors.New(
+		"header extension elements must fit 65535 32-bit words",
+	)
+
 	errInvalidRTPPadding = errors.New("invalid RTP padding")
 )
